@@ -36,6 +36,7 @@ type FuncContract struct {
 	NoReturnCheck bool
 	ClosedWorld bool // functype: values originate only from this package's own function literals
 	Implements []string
+	GhostParams []BoundVar
 	merged bool
 	File     string
 	Line     int
@@ -51,6 +52,7 @@ type GhostUpdate struct {
 	Havoc  []string
 	Value  *Expr
 	Line   int
+	With   map[string]*Expr
 }
 
 type TypeDecl struct {
@@ -97,7 +99,7 @@ var (
 	reFuncHdr  = regexp.MustCompile(`^(func|iface|functype)\s+(\S+?)\s*\(([^)]*)\)\s*(?:\(([^)]*)\))?\s*$`)
 	reLabel    = regexp.MustCompile(`^([A-Za-z0-9_.+\-/@]+):\s+(.*)$`)
 	rePure     = regexp.MustCompile(`^pure\s+([A-Za-z_][A-Za-z0-9_]*)\s*\(([^)]*)\)\s*(\S+)\s*(?:=\s*(.*))?$`)
-	reKeyword  = regexp.MustCompile(`^(func|iface|functype|type|pure|axiom|requires|ensures|loop|rangeloop|assigns|let|trusted|pureeffect|iterator|sends|ghost|noreturncheck|safety|closedworld|implements)\b`)
+	reKeyword  = regexp.MustCompile(`^(func|iface|functype|type|pure|axiom|requires|ensures|loop|rangeloop|assigns|let|trusted|pureeffect|iterator|sends|ghost|noreturncheck|safety|closedworld|implements|ghostparam)\b`)
 )
 
 func splitNames(s string) []string {
@@ -288,20 +290,52 @@ func (cs *ContractSet) parseFile(path string) error {
 			cur.Iterator = true
 			cur.IterView = rest
 		case "ghost":
-			// ghost after call <callee>#<n>: target = value
 			if cur == nil {
 				return errf("clause outside function")
 			}
-			m := regexp.MustCompile(`^after call (\S+?)#(\d+) havoc ([^:]*):\s*(.*)$`).FindStringSubmatch(rest)
-			if m == nil {
-				return errf("bad ghost update (want 'ghost after call f#n havoc Fam,...: expr')")
+			if m := regexp.MustCompile(`^after call (\S+?)#(\d+) havoc ([^:]*):\s*(.*)$`).FindStringSubmatch(rest); m != nil {
+				n, _ := strconv.Atoi(m[2])
+				ve, err := parseExpr(m[4])
+				if err != nil {
+					return errf("%v", err)
+				}
+				cur.Ghosts = append(cur.Ghosts, &GhostUpdate{Anchor: "aftercall", Callee: m[1], N: n, Havoc: splitNames(m[3]), Value: ve, Line: l.no})
+			} else if m := regexp.MustCompile(`^at loop (\d+) (entry|backedge) havoc ([^:]*):\s*(.*)$`).FindStringSubmatch(rest); m != nil {
+				n, _ := strconv.Atoi(m[1])
+				ve, err := parseExpr(m[4])
+				if err != nil {
+					return errf("%v", err)
+				}
+				cur.Ghosts = append(cur.Ghosts, &GhostUpdate{Anchor: "loop-" + m[2], N: n, Havoc: splitNames(m[3]), Value: ve, Line: l.no})
+			} else if m := regexp.MustCompile(`^call (\S+?)#(\d+) with (.*)$`).FindStringSubmatch(rest); m != nil {
+				n, _ := strconv.Atoi(m[2])
+				g := &GhostUpdate{Anchor: "witness", Callee: m[1], N: n, Line: l.no, With: map[string]*Expr{}}
+				for _, part := range splitTop(m[3]) {
+					kv := strings.SplitN(part, "=", 2)
+					if len(kv) != 2 {
+						return errf("bad witness %q", part)
+					}
+					e, err := parseExpr(strings.TrimSpace(kv[1]))
+					if err != nil {
+						return errf("%v", err)
+					}
+					g.With[strings.TrimSpace(kv[0])] = e
+				}
+				cur.Ghosts = append(cur.Ghosts, g)
+			} else {
+				return errf("bad ghost clause")
 			}
-			n, _ := strconv.Atoi(m[2])
-			ve, err := parseExpr(m[4])
-			if err != nil {
-				return errf("%v", err)
+		case "ghostparam":
+			if cur == nil {
+				return errf("clause outside function")
 			}
-			cur.Ghosts = append(cur.Ghosts, &GhostUpdate{Callee: m[1], N: n, Havoc: splitNames(m[3]), Value: ve, Line: l.no})
+			for _, p := range strings.Split(rest, ",") {
+				f := strings.Fields(strings.TrimSpace(p))
+				if len(f) != 2 {
+					return errf("bad ghostparam %q", p)
+				}
+				cur.GhostParams = append(cur.GhostParams, BoundVar{f[0], f[1]})
+			}
 		case "pure":
 			m := rePure.FindStringSubmatch(t)
 			if m == nil {
@@ -405,4 +439,24 @@ func (cs *ContractSet) parseFile(path string) error {
 		}
 	}
 	return nil
+}
+
+// splitTop splits on commas that are not nested in parentheses/brackets.
+func splitTop(s string) []string {
+	var out []string
+	d, last := 0, 0
+	for i := 0; i < len(s); i++ {
+		switch s[i] {
+		case '(', '[':
+			d++
+		case ')', ']':
+			d--
+		case ',':
+			if d == 0 {
+				out = append(out, s[last:i])
+				last = i + 1
+			}
+		}
+	}
+	return append(out, s[last:])
 }
